@@ -5,6 +5,7 @@ import TSSVerif.Driver.Sss
 import TSSVerif.Driver.Box
 import TSSVerif.Driver.BoxConc
 import TSSVerif.Driver.Adapter
+import TSSVerif.Driver.Translate
 /-!
 Line-protocol driver: one operation per input line, one answer per output line. Imports `Model/`
 and `Driver/` only (core Lean), so it links as a native executable; the definitions it runs are the
@@ -21,6 +22,7 @@ def step (st : DState) (line : String) : DState × String :=
   let toks := (line.splitOn " ").filter (· ≠ "")
   match toks with
   | "wire" :: rest => (st, (wireOp rest).getD "bad-op")
+  | "tr" :: rest => (st, (trOp rest).getD "bad-op")
   | "adp" :: rest => (st, (adpOp rest).getD "bad-op")
   | "boxc" :: rest =>
     match boxcOp st.boxc rest with
